@@ -397,8 +397,13 @@ func (reg *Reg) blobPutUploadFull(ctx context.Context, r ref.Ref, d descriptor.D
 	if d.Size == 0 && d.Digest == zeroDig {
 		// the body is not sent, verify the source is empty too
 		if rdr != nil {
-			if n, _ := io.ReadFull(rdr, make([]byte, 1)); n > 0 {
+			n, errR := io.ReadFull(rdr, make([]byte, 1))
+			if n > 0 {
 				return fmt.Errorf("%w, expected %s, blob source is not empty", errs.ErrDigestMismatch, d.Digest.String())
+			}
+			if errR != nil && !errors.Is(errR, io.EOF) {
+				// a source that fails is not an empty source
+				return fmt.Errorf("failed to read blob source, digest %s, ref %s: %w", d.Digest.String(), r.CommonName(), errR)
 			}
 		}
 		bodyFunc = nil
